@@ -35,9 +35,16 @@ class Lin:
     __slots__ = ("t", "c", "_h")
 
     def __init__(self, t=None, c=0):
-        self.t = {k: Fraction(v) for k, v in (t or {}).items() if v != 0}
-        self.c = Fraction(c)
+        self.t = {k: (v if type(v) is Fraction else Fraction(v)) for k, v in t.items() if v != 0} if t else {}
+        self.c = c if type(c) is Fraction else Fraction(c)
         self._h = None
+
+    @staticmethod
+    def _raw(t, c):
+        """a linear form from a dict of non-zero Fraction coefficients and a Fraction constant (no conversion)"""
+        x = Lin.__new__(Lin)
+        x.t, x.c, x._h = t, c, None
+        return x
 
     # -- structure
     def __hash__(self):
@@ -70,15 +77,25 @@ class Lin:
     # -- arithmetic
     def __add__(self, o):
         o = lin(o)
+        if not o.t:
+            return Lin._raw(self.t, self.c + o.c) if o.c else self
         t = dict(self.t)
         for k, v in o.t.items():
-            t[k] = t.get(k, 0) + v
-        return Lin(t, self.c + o.c)
+            w = t.get(k)
+            if w is None:
+                t[k] = v
+            else:
+                w = w + v
+                if w:
+                    t[k] = w
+                else:
+                    del t[k]
+        return Lin._raw(t, self.c + o.c)
 
     __radd__ = __add__
 
     def __neg__(self):
-        return Lin({k: -v for k, v in self.t.items()}, -self.c)
+        return Lin._raw({k: -v for k, v in self.t.items()}, -self.c)
 
     def __sub__(self, o):
         return self + (-lin(o))
@@ -2070,6 +2087,8 @@ class Engine:
             return ("elem", it[2][0], ("elem", ("op", ".keys", it[2]), lin(k)))
         if isinstance(it, tuple) and it and it[0] == "op" and it[1] == ".keys" and len(it[2]) == 1:
             return ("elem", it, lin(k))
+        if isinstance(it, tuple) and it[:1] == ("slice",):
+            return self._elem(it, lin(k))          # the k-th element of x[a::s] is x[a + s * k]
         return ("elem", it, lin(k))
 
     def while_(self, node, st):
@@ -2201,10 +2220,10 @@ class Engine:
             return base[1][ival(idx)]
         if isinstance(idx, tuple) and idx and idx[0] == "sl":
             return ("slice", base, idx[1], idx[2], idx[3])
-        if isinstance(base, tuple) and base[:1] == ("slice",) and base[4] == Lin(c=1) and isinstance(base[2], Lin) \
+        if isinstance(base, tuple) and base[:1] == ("slice",) and is_int_const(base[4]) and ival(base[4]) >= 1 and isinstance(base[2], Lin) \
                 and (isinstance(idx, Lin) or (isinstance(idx, tuple) and idx[:1] == ("sym",))) \
                 and not (isinstance(idx, Lin) and idx.is_const() and idx.c < 0) and not (base[2].is_const() and base[2].c < 0):
-            return ("elem", base[1], base[2] + lin(idx))          # x[a:][i] is x[a + i] (indices counted from the front)
+            return ("elem", base[1], base[2] + lin(idx).scale(ival(base[4])))          # x[a::s][i] is x[a + s * i] (indices counted from the front)
         return ("elem", base, idx)
 
     def _slice_of_slice(self, base, idx):
@@ -2765,6 +2784,9 @@ class Engine:
         nm = name or ast.unparse(node.func)
         if isinstance(st.env.get(nm), tuple) and st.env.get(nm)[0] == "func":
             nm = "local:" + nm
+        if not args and not kws:
+            # a call without arguments makes a new object (set(), list(), a factory): two call sites are two objects
+            return ("op", nm, (), (("@site", Lin(c=getattr(node, "lineno", 0) * 1000 + getattr(node, "col_offset", 0))),))
         return ("op", nm, tuple(args)) if not kws else ("op", nm, tuple(args), tuple(sorted(kws.items(), key=lambda kv: kv[0])))
 
     def _pin(self, v):
